@@ -125,6 +125,11 @@ class _CGMYLevyMeasure(LevyMeasure):
         return 0
 
     def integrate(self, a: float, b: float) -> float:
+        if a < 0 < b:
+            if self.parameters.y >= 0:
+                return np.inf
+            return self.integrate(a, 0.0) + self.integrate(0.0, b)
+
         if b == np.inf:
             if a == np.inf:
                 return 0.0
@@ -217,6 +222,9 @@ class _CGMYLevyMeasure(LevyMeasure):
         uh = u * h
         if alpha == 0:
             return scipy.special.exp1(uh)
+
+        if alpha < 0 and h == 0:
+            return scipy.special.gamma(-alpha) * u**alpha
 
         expmuh = np.exp(-uh)
         if alpha >= 1:
